@@ -20,6 +20,9 @@
 (*   rtypes Rust type -> path of the Roto type it is registered as         *)
 (*   alias  bare name -> path, for `use` items at the top of a library     *)
 (*   loose  names whose visibility the property leaves open (see Add)      *)
+(*   opennames / opentys  names and Rust types of REFUSED libraries: an Add  *)
+(*          that fails may have registered part of its library, so nothing  *)
+(*          is asserted about those names (see Refused)                      *)
 (*                                                                         *)
 (* Add(lib) = the single public operation (Runtime::add, src/runtime/      *)
 (* mod.rs Rt::add).  Its outcome is defined declaratively - no passes, no  *)
@@ -31,6 +34,11 @@
 (*                that is not registered                                    *)
 (*   Ok   otherwise, and then every item is reachable at its declaration   *)
 (*        path and through every top-level `use`.                           *)
+(* A refused Add (Err) leaves everything that EARLIER successful Adds made *)
+(* reachable unchanged: every earlier item is still reachable at its       *)
+(* declaration path and through its aliases and still means the same       *)
+(* (same function tag, same constant value, same type); nothing is         *)
+(* asserted about the items of the refused library itself (Refused).       *)
 (* There is no outcome Panic.  Where the statement of the property is      *)
 (* silent the outcome is "Unspec" (Ok or Err allowed, never a panic):      *)
 (* a `use` whose path is empty or names nothing, items other than          *)
@@ -158,7 +166,9 @@ HasDup(s) == \E i, j \in DOMAIN s : i < j /\ s[i] = s[j]
 EmptyRt == [decl   |-> <<>>,                       \* function with empty domain
             rtypes |-> (0 :> <<"i32">>),
             alias  |-> <<>>,
-            loose  |-> {}]
+            loose  |-> {},
+            opennames |-> {},
+            opentys   |-> {}]
 
 Taken(rt, p)    == p \in DOMAIN rt.decl \/ (Len(p) = 1 /\ p[1] \in BuiltinRoot)
 AliasNames(rt)  == DOMAIN rt.alias \cup BuiltinAlias
@@ -226,15 +236,47 @@ Analyse(rt, lib) ==
                      \/ HasDup(innameseq)
                      \/ NestedInImpl(lib, FALSE)
       dangling    == {Last(u.path) : u \in {x \in Range(uses) : x.path # <<>> /\ ~Exists(x.path)}}
+      (* what an earlier REFUSED Add may have registered: a library that uses one of those names / *)
+      (* Rust types again may find it taken / registered or not                                     *)
+      usenames    == {Last(u.path) : u \in {x \in Range(uses) : x.path # <<>>}}
+      touches     == \/ \E it \in Range(flat) : IsNamed(it) /\ it.name \in rt.opennames
+                     \/ usenames \cap rt.opennames # {}
+                     \/ \E it \in Range(flat) :
+                           \/ it.k \in {"type", "impl", "const"} /\ it.ty \in rt.opentys
+                           \/ it.k = "const" /\ Mentions(it.ty) \cap rt.opentys # {}
+                           \/ it.k = "fn" /\ (Mentions(it.r) \cap rt.opentys # {} \/ \E i \in DOMAIN it.ps : Mentions(it.ps[i]) \cap rt.opentys # {})
+      (* a declaration in the root scope named like an alias that exists already: which of the two *)
+      (* a script sees is left open (like an alias named like a declaration)                        *)
+      shadowed    == {paths[i][1] : i \in {j \in DOMAIN paths : Len(paths[j]) = 1 /\ paths[j][1] \in DOMAIN rt.alias}}
+      certain     == badname \/ taken \/ aliasclash \/ dupty
       why         == (IF badname THEN {"badname"} ELSE {}) \cup (IF taken \/ aliasclash THEN {"taken"} ELSE {})
                      \cup (IF dupty THEN {"duptype"} ELSE {}) \cup (IF unreg THEN {"unregistered"} ELSE {})
-  IN [out      |-> IF why # {} THEN "Err" ELSE IF unspec THEN "Unspec" ELSE "Ok",
+  IN [out      |-> IF touches THEN (IF certain THEN "Err" ELSE "Unspec")
+                   ELSE IF why # {} THEN "Err" ELSE IF unspec \/ shadowed # {} THEN "Unspec" ELSE "Ok",
       why      |-> why,
       dangling |-> dangling,
+      touches  |-> touches,
+      shadowed |-> shadowed,
+      names    |-> {it.name : it \in {x \in Range(flat) : IsNamed(x)}} \cup usenames,
+      newtys   |-> Range(tys) \ DOMAIN rt.rtypes,
       rt       |-> [decl   |-> decl2,
                     rtypes |-> tm,
                     alias  |-> newaliasmap @@ rt.alias,
-                    loose  |-> rt.loose \cup newloose]]
+                    loose  |-> rt.loose \cup newloose \cup shadowed,
+                    opennames |-> rt.opennames,
+                    opentys   |-> rt.opentys]]
+
+(***************************************************************************)
+(* The runtime after a REFUSED Add.  Declarations, registered Rust types   *)
+(* and aliases of the earlier successful Adds are untouched - they stay    *)
+(* reachable and keep their meaning.  The refused library may have been    *)
+(* registered in part: its names and its new Rust types become open.  A    *)
+(* root name of the refused library that is the name of an alias makes     *)
+(* that alias open (declaration and alias of one name: left open above).   *)
+(***************************************************************************)
+Refused(rt, a) == [rt EXCEPT !.opennames = @ \cup a.names,
+                             !.opentys   = @ \cup a.newtys,
+                             !.loose     = @ \cup a.shadowed]
 
 (***************************************************************************)
 (* Reachability from a script.                                             *)
@@ -248,6 +290,7 @@ Resolve(rt, p) ==
   ELSE IF p[1] \in DOMAIN rt.alias /\ (rt.alias[p[1]] \o Tail(p)) \in DOMAIN rt.decl
        THEN <<TRUE, rt.alias[p[1]] \o Tail(p)>>
   ELSE IF p[1] \in BuiltinRoot \cup BuiltinAlias THEN <<FALSE, "open">>
+  ELSE IF \E i \in DOMAIN p : p[i] \in rt.opennames THEN <<FALSE, "open">>   \* perhaps registered by a refused Add
   ELSE <<FALSE, "none">>
 
 (* does probe q (kind, path, ps, r, ty) fit declaration d *)
@@ -335,7 +378,8 @@ SigProbes(rt) ==
 (* The state machine: a runtime and a sequence of Add calls.               *)
 (***************************************************************************)
 VARIABLES rt,        \* runtime state (meaningful while valid)
-          valid,     \* FALSE after an Add that did not succeed: nothing more is asserted
+          valid,     \* FALSE when nothing more is asserted: after an Add whose outcome was left open and that
+                     \* failed, or that succeeded although it uses names of a refused library
           outcome    \* outcome of the last Add: "init" | "Ok" | "Err" | "Unspec"
 vars == <<rt, valid, outcome>>
 
@@ -350,8 +394,9 @@ Add(lib, got) ==
         \/ a.out = "Err" /\ got = "err"
         \/ a.out = "Unspec" /\ got \in {"ok", "err"}
      /\ outcome' = a.out
-     /\ valid' = (got = "ok")
-     /\ rt' = IF got = "ok" THEN a.rt ELSE rt
+     /\ valid' = \/ got = "ok" /\ ~a.touches
+                 \/ got = "err" /\ a.out = "Err"          \* refused as specified: earlier items stay as they are
+     /\ rt' = IF got = "ok" THEN a.rt ELSE IF a.out = "Err" THEN Refused(rt, a) ELSE rt
 
 TypeOK == /\ valid \in BOOLEAN
           /\ outcome \in {"init", "Ok", "Err", "Unspec"}
@@ -363,4 +408,8 @@ ScopesClosed == \A p \in DOMAIN rt.decl :
                    (Front(p) \in DOMAIN rt.decl /\ rt.decl[Front(p)].kind \in {"mod", "type"})
 (* aliases point at declarations *)
 AliasesResolve == \A n \in DOMAIN rt.alias : rt.alias[n] \in DOMAIN rt.decl
+(* a refused Add changes nothing that was reachable: the action property checked by MCRegistration *)
+RefusedKeeps == [][outcome' = "Err" /\ valid' =>
+                     /\ rt'.decl = rt.decl /\ rt'.rtypes = rt.rtypes /\ rt'.alias = rt.alias
+                     /\ \A p \in DOMAIN rt.decl : Resolve(rt, p)[1] => Resolve(rt', p) = Resolve(rt, p)]_vars
 =============================================================================
